@@ -67,7 +67,8 @@ fn main() {
             }
             let v = load_replay(&args[2]);
             let id = v["property"].as_str().unwrap_or("?").to_string();
-            let ctx = Ctx { tier: Tier::Quick, seed, excl };
+            // replays are strict: no known-finding exclusions
+            let ctx = Ctx { tier: Tier::Quick, seed, excl: HashSet::new() };
             let props = rqv::props::all(&ctx);
             let Some(prop) = props.iter().find(|p| p.id == id) else {
                 eprintln!("unknown property {}", id);
@@ -126,13 +127,16 @@ fn main() {
             };
             let prop = props.remove(pos);
             let others = props;
-            std::process::exit(run_property(&root, &prop, &others, tier, seed, &known));
+            // the same property without known-finding exclusions: used to replay witnesses strictly
+            let strict_ctx = Ctx { tier, seed, excl: HashSet::new() };
+            let strict = rqv::props::all(&strict_ctx).into_iter().find(|p| p.id == id).unwrap();
+            std::process::exit(run_property(&root, &prop, &strict, &others, tier, seed, &known));
         }
         _ => usage(),
     }
 }
 
-fn run_property(root: &str, prop: &Property, others: &[Property], tier: Tier, seed: u64, known: &[KnownFinding]) -> i32 {
+fn run_property(root: &str, prop: &Property, strict: &Property, others: &[Property], tier: Tier, seed: u64, known: &[KnownFinding]) -> i32 {
     let t_start = std::time::Instant::now();
     // 1. regression replays (witnesses of fixed findings, shrunk seeded mutants, hand-written boundary cases)
     let dir = format!("{}/replays/{}", root, prop.id);
@@ -172,7 +176,7 @@ fn run_property(root: &str, prop: &Property, others: &[Property], tier: Tier, se
             let path = format!("{}/{}", root, w);
             let v = load_replay(&path);
             let sig = k.msg_contains.clone().unwrap_or_default();
-            match replay_one(prop, v["part"].as_str().unwrap_or("?"), &v["case"], &[]) {
+            match replay_one(strict, v["part"].as_str().unwrap_or("?"), &v["case"], &[]) {
                 Ok(_) => println!("note: known finding {} no longer reproduces on this tree (witness {} passes)", k.key, w),
                 Err(m) if m.starts_with("HARNESS") => {
                     println!("{} (witness {})", m, w);
